@@ -49,7 +49,15 @@ fn observe(e: &GraphEngine, idx: &[(String, String)], probes: &[i64]) -> J {
                 (json!([n, ext, labels, p, blen, bsum]), out, inn)
             }));
             match one {
-                Ok((rec, out, inn)) => { nodes.push(rec); for x in out { edges.push(json!(["o", x])); } for x in inn { edges.push(json!(["i", x])); } }
+                Ok((rec, out, inn)) => {
+                    nodes.push(rec);
+                    // parallel relationships folded into [direction, src, dst, how many]
+                    for (dir, list) in [("o", out), ("i", inn)] {
+                        let mut m: std::collections::BTreeMap<(u64, u64), u64> = Default::default();
+                        for x in list { *m.entry((x[0].as_u64().unwrap(), x[1].as_u64().unwrap())).or_insert(0) += 1; }
+                        for ((a, b), c) in m { edges.push(json!([dir, a, b, c])); }
+                    }
+                }
                 Err(_) => errs.push(format!("panic:node:{n}")),
             }
         }
